@@ -7,7 +7,8 @@ cd /verif
 # evidence of runs against a changed tree never lands in /verif/evidence
 export VERIF_EVIDENCE_DIR=/verif/build/evidence_scratch
 git -C /repo apply "$patch" || { echo "patch does not apply"; exit 3; }
-trap 'git -C /repo checkout -- . ; git -C /repo status --short | head -3' EXIT
+# restore the tree and regenerate the Lean data from it, so that a later bare `lake build` sees the unchanged source
+trap 'git -C /repo checkout -- . ; git -C /repo status --short | head -3; python3 /verif/tools/translate.py >/dev/null 2>&1' EXIT
 for p in "$@"; do
   out=$(./check "$p" 2>&1); rc=$?
   echo "== $p exit=$rc"
